@@ -551,4 +551,89 @@ theorem newSheet_bounds (b : Book) (name : Str) (h : BookOk b)
       simp only [maxSheetId]
       split <;> omega
 
+
+/-! ### content-type operations at the sheet level -/
+
+theorem take_eq_of_prefix {p a x : Str} (n : Nat) (h : p.isPrefixOf (a ++ x) = true) (hp : n ≤ p.length) (ha : n ≤ a.length) :
+    a.take n = p.take n := by
+  rw [List.isPrefixOf_iff_prefix] at h
+  obtain ⟨t, ht⟩ := h
+  have h1 : (p ++ t).take n = p.take n := List.take_append_of_le_length hp
+  have h2 : (a ++ x).take n = a.take n := List.take_append_of_le_length ha
+  rw [← h1, ht, h2]
+
+/-- no kind of addContentTypePart produces a part name below the worksheet prefix -/
+theorem kindPart_not_ws (index : Int) (kind : Str) : wsPartPrefix.isPrefixOf (kindPart index kind).1 = false := by
+  have hnil : wsPartPrefix.isPrefixOf ([] : Str) = false := by decide +kernel
+  have hlen : 5 ≤ wsPartPrefix.length := by decide +kernel
+  have hall : ∀ k ∈ Facts.C05.ctPartKinds, 5 ≤ (sl k.2.1).length ∧ (sl k.2.1).take 5 ≠ wsPartPrefix.take 5 := by decide +kernel
+  unfold kindPart kindInfo
+  cases hf : Facts.C05.ctPartKinds.find? (fun k => sl k.1 == kind) with
+  | none => simpa using hnil
+  | some k =>
+    obtain ⟨k1, pre, suf, ctype, indexed⟩ := k
+    have hk := hall _ (List.mem_of_find?_eq_some hf)
+    simp only
+    cases hb : wsPartPrefix.isPrefixOf (sl pre ++ (if indexed = true then itoaInt index else []) ++ sl suf) with
+    | false => rfl
+    | true =>
+      exfalso
+      rw [List.append_assoc] at hb
+      exact hk.2 (take_eq_of_prefix 5 hb hlen hk.1)
+
+theorem addContentTypePart_overrides (ct : CT) (index : Int) (kind : Str) :
+    (addContentTypePart ct index kind).overrides = ct.overrides ∨
+    (addContentTypePart ct index kind).overrides = ct.overrides ++ [kindPart index kind] := by
+  unfold addContentTypePart
+  dsimp only
+  split
+  · left; rfl
+  · right; rfl
+
+/-- addContentTypePart on the content types of a `BookOk` workbook keeps it `BookOk` -/
+theorem addCT_ok (b : Book) (index : Int) (kind : Str) (h : BookOk b) (hct : ctOk (addContentTypePart b.ct index kind)) :
+    BookOk { b with ct := addContentTypePart b.ct index kind } := by
+  refine
+    { rels := h.rels, ct := hct, names := h.names, ids := h.ids, idrange := h.idrange, rids := h.rids,
+      sheetRel := h.sheetRel, relSheet := h.relSheet, parts := h.parts, ovrSheet := ?_, sheetOvr := ?_ }
+  · intro o ho hpre
+    show ∃ s ∈ b.sheets, _
+    have ho' : o ∈ (addContentTypePart b.ct index kind).overrides := ho
+    rcases addContentTypePart_overrides b.ct index kind with e | e
+    · rw [e] at ho'; exact h.ovrSheet o ho' hpre
+    · rw [e] at ho'
+      rcases List.mem_append.mp ho' with h1 | h1
+      · exact h.ovrSheet o h1 hpre
+      · simp only [List.mem_singleton] at h1
+        rw [h1, kindPart_not_ws] at hpre; cases hpre
+  · intro s hs
+    show _ ∈ (addContentTypePart b.ct index kind).overrides
+    rcases addContentTypePart_overrides b.ct index kind with e | e
+    · rw [e]; exact h.sheetOvr s hs
+    · rw [e]; exact List.mem_append_left _ (h.sheetOvr s hs)
+
+/-- removeContentTypesPart for a content type other than the worksheet one never panics on a
+`BookOk` workbook and keeps it `BookOk` -/
+theorem removeCT_ok (b : Book) (ctype part : Str) (h : BookOk b) (hne : ctype ≠ ctWorksheet) :
+    ∃ ct', removeContentTypesPart b.ct ctype part = .ok ct' ∧ BookOk { b with ct := ct' } := by
+  unfold removeContentTypesPart
+  dsimp only
+  generalize (if (sl "/").isPrefixOf part then part else sl "/xl/" ++ part) = k
+  obtain ⟨ovs, hdel, hsub, _, hkeep⟩ := rangeDelete_unique_spec (fun o : Str × Str => o.1) k
+    (fun o => o.1 == k && o.2 == ctype)
+    (fun x hx => by simp only [Bool.and_eq_true] at hx; exact eq_of_beq hx.1) b.ct.overrides h.ct
+  rw [hdel]
+  refine ⟨_, rfl, ?_⟩
+  refine
+    { rels := h.rels, ct := nodup_map_sublist _ hsub h.ct, names := h.names, ids := h.ids, idrange := h.idrange,
+      rids := h.rids, sheetRel := h.sheetRel, relSheet := h.relSheet, parts := h.parts, ovrSheet := ?_, sheetOvr := ?_ }
+  · intro o ho hpre; exact h.ovrSheet o (hsub.subset ho) hpre
+  · intro s hs
+    apply hkeep _ (h.sheetOvr s hs)
+    have : (ctWorksheet == ctype) = false := by
+      cases hc : ctWorksheet == ctype with
+      | false => rfl
+      | true => exact absurd (eq_of_beq hc).symm hne
+    simp [this]
+
 end XlModel.Lemmas.Pkg
